@@ -25,7 +25,7 @@ CLAIMED = {
             "helpers.knot_insertion / knot_insertion_kv equals the original point (polar-form refinement theorem, no bound on anything); plus: knot vector gains exactly r "
             "copies (multiset), stays sorted, net grows by r, over-multiplicity requests are rejected. The model (including the per-direction gather/scatter for surfaces "
             "and volumes and the partial application when a later direction is rejected) is tied to operations.insert_knot and the insert_knot methods by exact correspondence.",
-            "Not proved: the lifting of the curve theorem to surfaces / volumes (model + correspondence + exact oracle only); A5.1's in-place loops vs the model's index-by-index form is tied by correspondence."),
+            "Surfaces: proved for both directions (insert_u/insert_v_preserves_surface_point: the gather / scatter of iso-curves of the model preserves every surface point). Not proved: volumes (model + correspondence + exact oracle only); A5.1's in-place loops vs the model's index-by-index form is tied by correspondence."),
     'C05': ("7/C05",
             "The executable model of helpers.knot_refinement is specification-level: the list X the code computes (default knot list, density bisection rounds, "
             "p - s copies) inserted one knot at a time with the A5.1 model whose shape preservation is proved for all inputs (C04). Lean theorems: the density round "
